@@ -127,6 +127,11 @@ def _call(entry: str, x: dict, ctx: _Ctx):
         if entry == "lowpass_backend":
             return Backend().lowpass_filter(img, cutoff, order)
         return Backend().lowpass_filter_ft(img, cutoff, order)
+    if entry == "low_high_utils":
+        # the low-pass and the high-pass filter of the same (shape, cutoff, order) are built from the same cached weights
+        cutoff = (0.2, 0.35)[x["b"]]
+        img = _img(shape)
+        return au.highpass_filter(img, cutoff, 2) if x["c"] else au.lowpass_filter(img, cutoff, 2)
     if entry.startswith("wedge"):
         rng = ((-60.0, -40.0)[x["b"]], (60.0, 50.0)[x["c"]])
         R = Rotation.from_quat([1, 2, 0, 3])
